@@ -211,7 +211,7 @@ func main() {
 			r.Tape = t.Recorded()
 		}
 		emit(r, time.Since(t0))
-		if r.Status == "stalled" {
+		if r.Status == "stalled" || r.Status == "hang" {
 			// goroutines of the stalled run are still parked: this process
 			// cannot be trusted any further; the orchestrator restarts after i.
 			out.Flush()
